@@ -7,6 +7,17 @@ import (
 
 // AEA is an Albers Conical Equal Area projection.
 func AEA(this *SR) (forward, inverse Transformer, err error) {
+	// Parameters that are left out of the definition default to zero, as in
+	// PROJ.4 (and as Merc and LCC do for the false origin).
+	if math.IsNaN(this.X0) {
+		this.X0 = 0
+	}
+	if math.IsNaN(this.Y0) {
+		this.Y0 = 0
+	}
+	if math.IsNaN(this.Lat0) {
+		this.Lat0 = 0
+	}
 
 	if math.Abs(this.Lat1+this.Lat2) < epsln {
 		err = fmt.Errorf("proj.AEA: standard Parallels cannot be equal and on opposite sides of the equator")
